@@ -6,5 +6,6 @@ var zzRegistry = map[string]func(int){
 	"ZZ_C10":      ZZ_C10,
 	"ZZ_C13":      ZZ_C13,
 	"ZZ_C14":      ZZ_C14,
+	"ZZ_C15":      ZZ_C15,
 	"ZZ_C16":      ZZ_C16,
 }
